@@ -1,4 +1,235 @@
-/- C04 — model and specification (stub; see HACKING.md) -/
+/-
+  C04 — API edits change exactly what they say: nothing else is lost, moved or altered.
+
+  Model of (shelxfile/shelx/shelx.py unless stated):
+    Shelxfile._reslist, delete_on_write, the object heap          -> `St` (`res`, `dow`, `heap`)
+    write_shelx_file (skip `num in delete_on_write`, skip `''`)   -> `written`
+    _parse_cards, SFAC / FVAR absorption (lines 525-541, 569-577) -> `load` (repaired: the absorbed entry is
+                                                                     blanked in place), `loadAbs` (the scheme
+                                                                     with absolute indices, as it was)
+    list.insert                                                   -> `pyInsert`
+    index_of / Atom.atomid / Command.index  (list.index)          -> `indexOf`
+    add_line                                                      -> `Op.addLine`
+    insert_anis, insert_frag_fend_entry (add_line(obj.position))  -> `Op.insertAfter`
+    Atoms.__delitem__ / Atom.delete / refine.remove_acta_card     -> `Op.delete`
+    replace_line                                                  -> `Op.replace`
+    Command.set, LSCycles.number, WGHT attributes, update_weight,
+    Atom.name / element (+ SFACTable.add_element, UNIT.add_number),
+    Atom.to_isotropic: the object is changed in place             -> `Op.setObj`
+    refine.restore_acta_card (insert ' ' after UNIT, assign card) -> `Op.insertObjAfter`
+  Specification (code independent, no list indices for the object-directed edits):
+    the file is a list of logical lines `Line` (who prints it, tokens);
+    `insertAt`, `insertAfterKey`, `deleteKey`, `replaceKey`, `setKey`, `absStep`, `absRun`.
+
+  `τ` is the token type (`String` in the driver).
+-/
 namespace Shelx.C04
+
+/-! ### Model -/
+
+/-- one entry of `_reslist` -/
+inductive Item (τ : Type) where
+  | raw (t : List τ)        -- a `str` entry that is not `''` (unparsed line, line inserted by `add_line`)
+  | obj (id : Nat)          -- an object (Command, Atom, SFACTable, FVARs …); printed through the heap
+  | blank                   -- `''`: continuation line consumed by the parser / blanked absorbed line
+  | absorbed (t : List τ)   -- entry of a second or later SFAC/FVAR line whose content went into the first
+                            --   one's object (`' '`, or the last `FVAR` object of that line, printed `t`);
+                            --   only the absolute-index scheme leaves such entries in the list
+deriving DecidableEq, Repr
+
+/-- a logical line of the written file: the object that printed it (if any) and its tokens -/
+structure Line (τ : Type) where
+  key : Option Nat
+  toks : List τ
+deriving DecidableEq, Repr
+
+structure St (τ : Type) where
+  res : List (Item τ)
+  dow : List Nat            -- delete_on_write: absolute indices into `res`
+  heap : Nat → List τ       -- what `str(obj)` gives, as tokens
+
+variable {τ : Type}
+
+/-- what `f.write(str(line))` emits for an entry that is not skipped -/
+def vis (h : Nat → List τ) : Item τ → Option (Line τ)
+  | .raw t => some ⟨none, t⟩
+  | .obj o => some ⟨some o, h o⟩
+  | .blank => none
+  | .absorbed t => some ⟨none, t⟩
+
+/-- `write_shelx_file`: `for num, line in enumerate(_reslist): if num in delete_on_write: continue;
+    if line == '': continue; write` -/
+def writtenFrom (h : Nat → List τ) (dow : List Nat) : Nat → List (Item τ) → List (Line τ)
+  | _, [] => []
+  | k, it :: r =>
+    (if k ∈ dow then [] else match vis h it with | none => [] | some l => [l]) ++ writtenFrom h dow (k + 1) r
+
+def written (s : St τ) : List (Line τ) := writtenFrom s.heap s.dow 0 s.res
+
+/-- Python `list.insert(n, x)` (n ≥ 0): positions past the end append -/
+def pyInsert {α : Type} : Nat → α → List α → List α
+  | 0, x, l => x :: l
+  | _ + 1, x, [] => [x]
+  | n + 1, x, a :: l => a :: pyInsert n x l
+
+/-- `_reslist.index(obj)`: position of the first entry that *is* the object; `none` is `ValueError`.
+    (`Atom.__eq__` compares the printed text instead — property C08; atoms with pairwise different text
+    are assumed here) -/
+def indexOf [DecidableEq τ] (o : Nat) : List (Item τ) → Option Nat
+  | [] => none
+  | it :: r => if it = .obj o then some 0 else (indexOf o r).map (· + 1)
+
+def setHeap (h : Nat → List τ) (o : Nat) (t : List τ) : Nat → List τ := fun i => if i = o then t else h i
+
+/-- the editing operations, as the API performs them on `_reslist` -/
+inductive Op (τ : Type) where
+  | addLine (i : Nat) (t : List τ)                 -- add_line(i, text): `_reslist.insert(i + 1, text)`
+  | insertAfter (o : Nat) (t : List τ)             -- add_line(obj.position, text)
+  | delete (o : Nat)                               -- `del _reslist[_reslist.index(obj)]`
+  | replace (o : Nat) (t : List τ)                 -- `_reslist[index_of(obj)] = text`
+  | setObj (o : Nat) (t : List τ)                  -- the object now prints `t`
+  | insertObjAfter (u n : Nat) (t : List τ)        -- new object `n` (printing `t`) right after object `u`
+deriving Repr
+
+/-- one API call; `none` = the call raised (`ValueError` of `list.index`). `delete_on_write` is never
+    touched by an edit — exactly as in the code. -/
+def step [DecidableEq τ] (s : St τ) : Op τ → Option (St τ)
+  | .addLine i t => some { s with res := pyInsert (i + 1) (.raw t) s.res }
+  | .insertAfter o t => (indexOf o s.res).map fun i => { s with res := pyInsert (i + 1) (.raw t) s.res }
+  | .delete o => (indexOf o s.res).map fun i => { s with res := s.res.eraseIdx i }
+  | .replace o t => (indexOf o s.res).map fun i => { s with res := s.res.set i (.raw t) }
+  | .setObj o t => some { s with heap := setHeap s.heap o t }
+  | .insertObjAfter u n t =>
+    (indexOf u s.res).map fun i => { s with res := pyInsert (i + 1) (.obj n) s.res, heap := setHeap s.heap n t }
+
+def run [DecidableEq τ] (s : St τ) : List (Op τ) → Option (St τ)
+  | [] => some s
+  | op :: r => (step s op).bind fun s' => run s' r
+
+/-! ### The parser's side: how a source file becomes `(res, dow, heap)` -/
+
+inductive SrcKind where
+  | sfac | fvar | other
+deriving DecidableEq, Repr
+
+/-- one logical line of the source file: class, number of physical lines (continuations), and what the
+    object made from it prints. The object id of logical line number `k` is `k`. -/
+structure Src (τ : Type) where
+  kind : SrcKind
+  nphys : Nat
+  toks : List τ
+deriving Repr
+
+structure LoadSt (τ : Type) where
+  res : List (Item τ) := []          -- in file order
+  dow : List Nat := []
+  heap : List (Nat × List τ) := []   -- latest binding first
+  sfac : Option Nat := none          -- id of the SFAC table object once it is in the list
+  fvar : Option Nat := none
+  next : Nat := 0
+
+def lookup (h : List (Nat × List τ)) (o : Nat) : List τ :=
+  match h with
+  | [] => []
+  | (k, v) :: r => if k = o then v else lookup r o
+
+def blanks (n : Nat) : List (Item τ) := List.replicate n .blank
+
+/-- one logical source line. `fixed = true`: the repaired code (the entry of an absorbed line is blanked in
+    place, nothing is remembered by index); `fixed = false`: the absolute-index scheme. -/
+def loadLine (fixed : Bool) (a : LoadSt τ) (l : Src τ) : LoadSt τ :=
+  let k := a.next
+  let first : LoadSt τ := { a with res := a.res ++ .obj k :: blanks (l.nphys - 1), heap := (k, l.toks) :: a.heap, next := k + 1 }
+  let absorb (o : Nat) (shown : List τ) : LoadSt τ :=
+    let heap := (o, lookup a.heap o ++ l.toks.drop 1) :: a.heap
+    if fixed then { a with res := a.res ++ blanks l.nphys, heap := heap, next := k + 1 }
+    else { a with res := a.res ++ .absorbed shown :: blanks (l.nphys - 1), dow := a.dow ++ [a.res.length],
+                  heap := heap, next := k + 1 }
+  match l.kind with
+  | .other => first
+  | .sfac => match a.sfac with
+    | none => { first with sfac := some k }
+    | some o => absorb o []                                  -- `_reslist[line_num] = ' '`
+  | .fvar => match a.fvar with
+    | none => { first with fvar := some k }
+    | some o => absorb o (l.toks.drop (l.toks.length - 1))   -- the line's last `FVAR` object stays in the list
+
+def loadWith (fixed : Bool) (src : List (Src τ)) : St τ :=
+  let a := src.foldl (loadLine fixed) {}
+  { res := a.res, dow := a.dow, heap := lookup a.heap }
+
+/-- the repaired parser -/
+def load (src : List (Src τ)) : St τ := loadWith true src
+/-- the parser with `delete_on_write` holding absolute indices -/
+def loadAbs (src : List (Src τ)) : St τ := loadWith false src
+
+/-! ### Specification: a file is a list of logical lines -/
+
+/-- the new line becomes line number `p` (counting from 0); past the end: last -/
+def insertAt (p : Nat) (n : Line τ) (ls : List (Line τ)) : List (Line τ) := pyInsert p n ls
+
+/-- the new line follows the line printed by object `o`; nothing else moves -/
+def insertAfterKey (o : Nat) (n : Line τ) : List (Line τ) → Option (List (Line τ))
+  | [] => none
+  | l :: r => if l.key = some o then some (l :: n :: r) else (insertAfterKey o n r).map (l :: ·)
+
+/-- the line printed by object `o` disappears; nothing else does -/
+def deleteKey (o : Nat) : List (Line τ) → Option (List (Line τ))
+  | [] => none
+  | l :: r => if l.key = some o then some r else (deleteKey o r).map (l :: ·)
+
+/-- the line printed by object `o` is exchanged for `n` -/
+def replaceKey (o : Nat) (n : Line τ) : List (Line τ) → Option (List (Line τ))
+  | [] => none
+  | l :: r => if l.key = some o then some (n :: r) else (replaceKey o n r).map (l :: ·)
+
+/-- what object `o` prints now reads `t`; every other line is untouched -/
+def setKey (o : Nat) (t : List τ) (ls : List (Line τ)) : List (Line τ) :=
+  ls.map fun l => if l.key = some o then { l with toks := t } else l
+
+/-- abstract edits -/
+inductive AOp (τ : Type) where
+  | insertAt (p : Nat) (t : List τ)
+  | insertAfter (o : Nat) (t : List τ)
+  | delete (o : Nat)
+  | replace (o : Nat) (t : List τ)
+  | setObj (o : Nat) (t : List τ)
+  | insertObjAfter (u n : Nat) (t : List τ)
+deriving Repr, DecidableEq
+
+def absStep (ls : List (Line τ)) : AOp τ → Option (List (Line τ))
+  | .insertAt p t => some (insertAt p ⟨none, t⟩ ls)
+  | .insertAfter o t => insertAfterKey o ⟨none, t⟩ ls
+  | .delete o => deleteKey o ls
+  | .replace o t => replaceKey o ⟨none, t⟩ ls
+  | .setObj o t => some (setKey o t ls)
+  | .insertObjAfter u n t => insertAfterKey u ⟨some n, t⟩ (setKey n t ls)
+
+def absRun (ls : List (Line τ)) : List (AOp τ) → Option (List (Line τ))
+  | [] => some ls
+  | a :: r => (absStep ls a).bind fun ls' => absRun ls' r
+
+/-- number of written lines among the first `n` list entries (entries skipped on write do not count) -/
+def visCount (h : Nat → List τ) : Nat → List (Item τ) → Nat
+  | 0, _ => 0
+  | _ + 1, [] => 0
+  | n + 1, it :: r => (match vis h it with | none => 0 | some _ => 1) + visCount h n r
+
+/-- the abstract edit an API call stands for. Only `add_line` with a bare list index needs the state:
+    "after list entry `i`" means "after the last written line at or before entry `i`". -/
+def absOf (s : St τ) : Op τ → AOp τ
+  | .addLine i t => .insertAt (visCount s.heap (i + 1) s.res) t
+  | .insertAfter o t => .insertAfter o t
+  | .delete o => .delete o
+  | .replace o t => .replace o t
+  | .setObj o t => .setObj o t
+  | .insertObjAfter u n t => .insertObjAfter u n t
+
+/-- the abstract history that a history of API calls stands for (stops where a call raises) -/
+def absTrace [DecidableEq τ] (s : St τ) : List (Op τ) → List (AOp τ)
+  | [] => []
+  | op :: r => absOf s op :: match step s op with
+    | none => []
+    | some s' => absTrace s' r
 
 end Shelx.C04
